@@ -14,6 +14,7 @@ EVERY read whose tail starts in the soft clip or inside the last match operation
 -/
 import IsoVerif.Model.C11Symmetry
 import IsoVerif.Props.C16FinderMirror
+import IsoVerif.Props.C16FinderFix
 
 namespace IsoVerif.Props.C11FinderMirror
 open IsoVerif.Gen IsoVerif.Model IsoVerif.Model.C11 IsoVerif.Model.C16 IsoVerif.Lemmas.C16
@@ -78,5 +79,37 @@ theorem finder_window_witness :
     findPolytHeadWin 16 3 4 (1000 - 117) [(.soft_clipping, 3), (.«match», 17)] "TGTTTTTTTGGGTGTTTTTT".toList 64 2 true
       = some 899 :=
   C16FinderMirror.window_mirror_witness
+
+/-- **finder_mirror_offset** (proof closure p16spec) — the law for a tail that starts ANYWHERE inside the aligned part
+    (`d ≥ 2` aligned tail bases): with `c1` the alignment column of the first tail base, `c2` the column of the read base
+    before it and `mid` the reference-only columns between them,
+    `find_polyt_head(mirror image) = max 1 (mirror(find_polya_tail(read)) − 1 − g)`,
+    `g = #reference bases of mid + (1 if the base before the tail is aligned, 0 if it is inserted)`;
+    `finder_mirror_minus_two` is `g = 1`.  (`C16FinderFix.mirror_law_general` also covers `d = 1`;
+    `C16FinderFix.mirror_offset_witness`: offsets −2, −4, −1 for one and the same tail.) -/
+theorem finder_mirror_offset (w num den : Nat) (s L : Int) (cigar : List CigarOp)
+    (seq seq' : List Char) (f t : Int) (chk : Bool) (hne : cigar ≠ []) (hseq : seq ≠ [])
+    (hclip : softClipTail cigar < seq.length) (hnn : NonNeg cigar) (hf : 0 ≤ f) (ht : 0 ≤ t)
+    (hrc : seq'.map (fun c => upperChar c == 'T') = (seq.map (fun c => upperChar c == 'A')).reverse)
+    (pA d : Nat) (hA : tailScan w num den chk (regionA cigar seq f t) = some pA)
+    (hd : (d : Int) = (seq.length : Int) - softClipTail cigar - (startA cigar seq f + pA)) (hd2 : 2 ≤ d)
+    (pre mid post : List (Bool × Bool)) (c1 c2 : Bool × Bool)
+    (hcols : expand (walkCore cigar false) = pre ++ c1 :: (mid ++ c2 :: post))
+    (h1 : c1.1 = true) (h2 : c2.1 = true) (hmid : ∀ m ∈ mid, m.1 = false) (hj : qCount pre = d - 1) :
+    ∃ ra, findPolyaTailFix w num den s cigar seq f t chk = some ra ∧
+      findPolytHeadWin w num den (L - referenceEnd s cigar) cigar.reverse seq' f t chk =
+        some (max 1 (mirrorP L ra - 1 - ((rCount mid : Int) + c2.2.toNat))) := by
+  obtain ⟨ra, h1', h2'⟩ := C16FinderFix.mirror_law_offset w num den s L cigar seq seq' f t chk hne hseq hclip hnn hf ht hrc
+    pA d hA hd hd2 pre mid post c1 c2 hcols h1 h2 hmid hj
+  refine ⟨ra, h1', ?_⟩
+  rw [h2']; unfold mirrorP; congr 2; omega
+
+/-- non-vacuity: read (b) of `mirror_offset_witness` (`6M 2D 3M 4S`): polyA 106, polyT of the mirror image
+    `mirror(106) − 1 − 3 = 891` -/
+example :
+    findPolyaTailFix 4 3 4 100 [(.«match», 6), (.deletion, 2), (.«match», 3), (.soft_clipping, 4)] "CCCCCCAAAAAAA".toList 16 2 true
+      = some 106 ∧
+    findPolytHeadWin 4 3 4 (1000 - 111) [(.soft_clipping, 4), (.«match», 3), (.deletion, 2), (.«match», 6)]
+      "TTTTTTTGGGGGG".toList 16 2 true = some (max 1 (mirrorP 1000 106 - 1 - 3)) := by decide +kernel
 
 end IsoVerif.Props.C11FinderMirror
